@@ -294,3 +294,28 @@ Proof.
   intro H. unfold qcol. rewrite (nth_indep _ 0 (f2q_at (emin v) nan)) by (rewrite map_length; exact H).
   rewrite map_nth. destruct (emin_le v) as [H0 He]. apply f2q_at_value; [exact H0 | apply He, nth_In, H].
 Qed.
+
+(* ------------------------------------------------------------------ the comparison is decided exactly *)
+Lemma close_sqrt_b_complete s V tol : close_sqrt s V tol -> close_sqrt_b s V tol = true.
+Proof.
+  unfold close_sqrt, close_sqrt_b. intros [H1 [H2 [H3 H4]]].
+  apply Qle_bool_iff in H1. apply Qle_bool_iff in H2. apply Qle_bool_iff in H4.
+  rewrite H1, H2, H4. cbn [andb]. rewrite andb_true_r.
+  apply orb_true_iff. destruct H3 as [H3|H3]; apply Qle_bool_iff in H3; [left|right]; exact H3.
+Qed.
+
+Lemma meets_q_complete y t : Meets_q y t -> meets_q y t = true.
+Proof.
+  destruct t as [|q|q A|V A]; simpl; intro H.
+  - reflexivity.
+  - apply Qeq_bool_iff. exact H.
+  - unfold close_lin_b. apply Qle_bool_iff. exact H.
+  - apply close_sqrt_b_complete. exact H.
+Qed.
+
+Theorem meets_iff f t : meets f t = true <-> Meets f t.
+Proof.
+  split; [apply meets_sound|].
+  destruct t as [|q|q A|V A]; intro H; [reflexivity| | |];
+    destruct H as [H1 H2]; unfold meets; rewrite H1; cbn [andb]; apply meets_q_complete; exact H2.
+Qed.
